@@ -25,5 +25,5 @@ if [ "$PROP" != "-" ]; then
   ( cd /verif && VERIF_REPO="$WT" VERIF_OUT="$MUT/out" ./vrun check "$PROP" "$@" > "$MUT/check.log" 2>&1 ); CHK=$?
   grep -E "VIOLATION|^REPRODUCED|INCONCLUSIVE|HARNESS" "$MUT/check.log" | head -4 >> "$OUT"
 fi
-echo "RESULT $NAME demo_clean=$CLEAN demo_mut=$MUTRC test_failures=$FAILS(2 expected) check_exit=$CHK"
+echo "RESULT $NAME demo_clean=$CLEAN demo_mut=$MUTRC test_failures=$FAILS(2 expected) check_exit=$CHK" | tee -a "$OUT"
 git -C /repo worktree remove --force "$WT"
